@@ -32,6 +32,10 @@ pub struct Program {
     /// one-way latency bounds in microseconds (kept below timeout/4)
     pub latency_us: (u64, u64),
     pub triggers: Vec<Trigger>,
+    /// one direction of one link is slow (from node, to node, one-way latency in microseconds): longer than the
+    /// 100 ms a candidate waits before it claims the election, still well below the election timeout
+    #[serde(default)]
+    pub slow_link: Option<(usize, usize, u64)>,
 }
 
 fn gen(rng: &mut Rng) -> Program {
@@ -63,7 +67,15 @@ fn gen(rng: &mut Rng) -> Program {
     if triggers.is_empty() {
         triggers.push(Trigger::None);
     }
-    Program { nodes, boot_gap_ms, latency_us, triggers }
+    let slow_link = if rng.chance(1, 4) {
+        let a = rng.below(nodes as u64) as usize;
+        let b = (a + 1 + rng.below(nodes as u64 - 1) as usize) % nodes;
+        let hi = (timeout * 1000 * 45 / 100).max(130_000);
+        Some((a, b, rng.range(120_000, hi)))
+    } else {
+        None
+    };
+    Program { nodes, boot_gap_ms, latency_us, triggers, slow_link }
 }
 
 struct Outcome {
@@ -173,11 +185,24 @@ fn execute(prog: Program) -> Outcome {
     let class = format!(
         "{}:{}",
         if mingap < 1_100 { "boot-within-initial-election-delay" } else { "boot-staggered" },
-        if prog.latency_us.1 > 0 { "latency" } else { "lan" }
+        if prog.slow_link.is_some() {
+            "slow-link"
+        } else if prog.latency_us.1 > 0 {
+            "latency"
+        } else {
+            "lan"
+        }
     );
     let class = class.as_str();
     if !judge(&w, "startup", &[], prog.nodes, class, &mut out) {
         return out;
+    }
+    // the link turns slow once the cluster has formed (the elections judged under it are those of the triggers)
+    if let Some((a, b, us)) = prog.slow_link {
+        with(|k| {
+            k.net.link_latency.insert((w.nodes[a].idx, w.nodes[b].idx), (us * 1000, us * 1000));
+            k.fault("slow_link_one_direction");
+        });
     }
     let mut earlier: Vec<String> = Vec::new();
     for t in prog.triggers.iter() {
@@ -331,6 +356,11 @@ impl Property for C07 {
         for i in 0..p.triggers.len() {
             let mut q = p.clone();
             q.triggers.remove(i);
+            out.push(serde_json::to_value(&q).unwrap());
+        }
+        if p.slow_link.is_some() {
+            let mut q = p.clone();
+            q.slow_link = None;
             out.push(serde_json::to_value(&q).unwrap());
         }
         if p.latency_us != (0, 0) {
